@@ -336,6 +336,9 @@ def clause_queue_released(ctx, P):
 
 
 def run(ctx, P):
+    from . import r2
+    r2.command_queue_drained(ctx, P, "C14h")
+    r2.status_never_forgotten(ctx, P, "C14i")
     clause_queue_released(ctx, P)
     clause_a(ctx, P)
     clause_b(ctx, P)
